@@ -119,8 +119,14 @@ def gen_probe_op(rng, trs_pool=None):
     if r < 0.55:
         return {"p": "tract_set", "text": corpus.gen_block(rng),
                 "tw": _gen_tw(rng), "kw": {}}
-    if r < 0.68:
+    if r < 0.66:
         return {"p": "trs", "s": rng.choice(trs_pool)}
+    if r < 0.68:
+        # an existing object pointed at another Twp/Rge/Sec
+        return {"p": "trs_repoint", "s": rng.choice(trs_pool),
+                "s2": rng.choice(trs_pool + [corpus.gen_trs_string(rng)]),
+                "tw": _gen_tw(rng),
+                "on": rng.choice(("TRS", "TRS", "Tract", "TRSList"))}
     if r < 0.74:
         kw = {}
         if rng.random() < 0.3:
@@ -249,6 +255,8 @@ def probe_trs_strings(probe):
     for op in probe:
         if "s" in op:
             out.append(op["s"])
+        if "s2" in op:
+            out.append(op["s2"])
         if "trs" in op:
             out.append(op["trs"])
         if "items" in op:
@@ -547,6 +555,27 @@ def _run_probe_op(pytrs, op, hooks=None):
         t = pytrs.TRS(op["s"])
         return [enc(t), t.pretty_twprge(), str(t), t.is_error(),
                 t.is_undef()], t
+    if p == "trs_repoint":
+        tw = op["tw"]
+        if op["on"] == "Tract":
+            t = pytrs.Tract("NE/4", trs=op["s"])
+            first = enc(t)
+            t.trs = op["s2"]
+            second = enc(t)
+            t.set_twprgesec(tw[0], tw[1], tw[2])
+            return [first, second, enc(t)], t
+        if op["on"] == "TRSList":
+            tl = pytrs.TRSList([op["s"], op["s2"]])
+            first = enc(tl)
+            tl[0].trs = op["s2"]
+            tl[1].set_twprgesec(tw[0], tw[1], tw[2])
+            return [first, enc(tl)], tl
+        t = pytrs.TRS(op["s"])
+        first = enc(t)
+        t.trs = op["s2"]
+        second = enc(t)
+        t.set_twprgesec(tw[0], tw[1], tw[2])
+        return [first, second, enc(t), t.is_error()], t
     if p == "trs_from":
         tw = op["tw"]
         t = pytrs.TRS.from_twprgesec(tw[0], tw[1], tw[2], **op["kw"])
